@@ -17,7 +17,7 @@ from .loader import AnalysisError, ClassInfo, norm_stmt
 
 IDENT_PRESERVING = {"dcp", "deepcopy", "copy", "copy.copy", "copy.deepcopy", "int", "float", "str", "bool"}
 MAX_DEPTH = 5
-MAX_PATHS = 20000
+MAX_PATHS = 100000
 
 
 class Val:
@@ -107,6 +107,7 @@ class Explorer:
             env[args.kwarg.arg] = Val(deps=[("param", args.kwarg.arg)])
         frame = Frame(fn, self.ci, env, selfnames, 0, qual)
         out = []
+        self.paths_explored = 0
         start = Path()
         start.assign.update(assume or {})
         for p, kind in self._block_s(fn.body, start, frame):
